@@ -124,3 +124,33 @@ FAMILIES["lexsplit"] = {
         ]},
     ],
 }
+
+ARMSIG_P = "pub fn {n}(prim: &Prim, purity: Purity) -> bool"
+ARMSIG_M = "pub fn {n}(prim: &Prim, args: &[SigNode], purity: Purity, asm: &Assembly, visited: &mut Visited) -> bool"
+FAMILIES["purity"] = {
+    "anchor": "src/tree.rs Node::is_min_purity (Prim/ImplPrim/Mod/ImplMod arms); src/compile/pre_eval.rs PreEvalMode::matches_nodes (Mod/ImplMod arms); parser/src/primitive.rs enum Purity",
+    "bound": "modifiers with 0-2 operands",
+    "header": "use crate::shim::*;\n",
+    "rewrites": (PUBCRATE,),
+    "dropped": "nothing inside the arms; in the matches_nodes arms the recursive call `recurse(mode, …)` is renamed `recurse_m` (R6: the two nested fns share a name)",
+    "groups": [
+        {"prefix": "#[derive(Debug, Clone, Copy, PartialEq, Eq, PartialOrd, Ord)]\n",
+         "items": [{"kind": "block", "name": "enum Purity", "file": "parser/src/primitive.rs", "header": r"^pub enum Purity \{"}]},
+        {"items": [
+            {"kind": "arm", "name": "is_min_purity Prim arm", "file": "src/tree.rs", "impl": r"^impl Node \{", "fn": "is_min_purity", "inner_fn": "recurse",
+             "arm": r"Node::Prim\(prim, _\)", "sig": ARMSIG_P.format(n="imp_arm_prim")},
+            {"kind": "arm", "name": "is_min_purity ImplPrim arm", "file": "src/tree.rs", "impl": r"^impl Node \{", "fn": "is_min_purity", "inner_fn": "recurse",
+             "arm": r"Node::ImplPrim\(prim, _\)", "sig": ARMSIG_P.format(n="imp_arm_implprim")},
+            {"kind": "arm", "name": "is_min_purity Mod arm", "file": "src/tree.rs", "impl": r"^impl Node \{", "fn": "is_min_purity", "inner_fn": "recurse",
+             "arm": r"Node::Mod\(prim, args, _\)", "sig": ARMSIG_M.format(n="imp_arm_mod")},
+            {"kind": "arm", "name": "is_min_purity ImplMod arm", "file": "src/tree.rs", "impl": r"^impl Node \{", "fn": "is_min_purity", "inner_fn": "recurse",
+             "arm": r"Node::ImplMod\(prim, args, _\)", "sig": ARMSIG_M.format(n="imp_arm_implmod")},
+            {"kind": "arm", "name": "matches_nodes Mod arm", "file": "src/compile/pre_eval.rs", "impl": r"^impl PreEvalMode \{", "fn": "matches_nodes",
+             "arm": r"Node::Mod\(prim, args, _\)", "sig": "pub fn mn_arm_mod(prim: &Prim, args: &[SigNode], mode: PreEvalMode, asm: &Assembly, visited: &mut Visited) -> bool",
+             "rewrites": (("R6", r"\brecurse\(mode,", "recurse_m(mode,", "nested fn renamed"),)},
+            {"kind": "arm", "name": "matches_nodes ImplMod arm", "file": "src/compile/pre_eval.rs", "impl": r"^impl PreEvalMode \{", "fn": "matches_nodes",
+             "arm": r"Node::ImplMod\(prim, args, _\)", "sig": "pub fn mn_arm_implmod(prim: &Prim, args: &[SigNode], mode: PreEvalMode, asm: &Assembly, visited: &mut Visited) -> bool",
+             "rewrites": (("R6", r"\brecurse\(mode,", "recurse_m(mode,", "nested fn renamed"),)},
+        ]},
+    ],
+}
